@@ -25,11 +25,27 @@ re-assembly.  Unit kinds:
           recursion, function pointers, and libc calling back into c2m code (qsort comparator),
           printf with many varargs.
 
+  saddr   struct assignment between every pair of addressing shapes of destination and source
+          (*p, p[i], p[C], *(p+i), p[i+C], *(p+C), p[j] for bases p and q, where q aliases p's array, is
+          p itself, or is another array; plus locals, globals, members s.m, pw->m, wa[i].m, pw->a[i],
+          function results, ?:, comma and chained assignments), sizes around the byte-loop/memcpy and
+          index-scale thresholds (1..9, 12..17, 31..33, 63..65, 127..129, 255..257, 300, 1000); the
+          arrays are refilled before and hashed after every statement.
+  fcexpr  constant folding across integer AND floating types: ?: && || ! comparisons casts unary and
+          binary arithmetic with every mix of integer / float / double / long double operands, kept
+          exact (dyadic values, results representable in the operation's type) so that evaluation
+          precision cannot matter; emitted as ordinary constant expression, static initialiser of the
+          result type and of double / float / long long (converting initialisers), with all leaves
+          volatile (run time), with a random half of the leaves volatile (selected arm constant or
+          not), with a comma operator, and - for strictly conforming integer constant expressions
+          whose floating constants are immediate cast operands - as array bound, case label and
+          enumeration constant.  The generator's exact evaluation (fractions) is the 4th opinion.
+
 Never generated: signed overflow, division by zero / MIN/-1, out-of-range or negative shift counts,
 left shifts of negative values, uninitialised reads, aliasing through incompatible types, VLAs,
-_Complex, _Atomic, _Thread_local, unbounded loops, conversions of values other than 0/1 to `_Bool`
-and enumerated types as operands (known findings C07:bool-conversion, C07:enum-underlying-type are
-pinned by corpus programs instead)."""
+_Complex, _Atomic, _Thread_local, unbounded loops, inexact floating arithmetic, out-of-range
+floating-to-integer conversions, and conversions of values other than 0/1 to `_Bool` (known finding
+C07:bool-conversion, pinned by a corpus program instead)."""
 
 TY = {  # name: (C spelling, width, signed, rank)
     "bool": ("_Bool", 8, False, 0), "char": ("char", 8, True, 1), "schar": ("signed char", 8, True, 1),
@@ -214,6 +230,123 @@ def leaves(e, out):
     return out
 
 
+
+# ---------------------------------------------------------------------------------------------- integer + floating evaluator
+from fractions import Fraction
+FT = {"float": ("float", 24, 1), "double": ("double", 53, 2), "ldouble": ("long double", 53, 3)}   # (spelling, exact bits kept, rank)
+FNAMES = list(FT)
+
+
+class Inexact(Exception):
+    pass
+
+
+def isf(t): return t in FT
+def xspell(t): return FT[t][0] if isf(t) else cspell(t)
+
+
+def representable(v, t):
+    v = Fraction(v)
+    if v == 0: return True
+    d = v.denominator
+    if d & (d - 1): return False
+    n = abs(v.numerator)
+    while n % 2 == 0: n //= 2
+    return n.bit_length() <= FT[t][1] and d.bit_length() < 60 and abs(v) < 2 ** 60
+
+
+def fusual(t1, t2):
+    if isf(t1) or isf(t2):
+        c = [t for t in (t1, t2) if isf(t)]
+        return max(c, key=lambda t: FT[t][2])
+    return usual(t1, t2)
+
+
+def fconv(t, t0, v):
+    """value v of type t0 converted to type t; raises UB / Inexact"""
+    if isf(t):
+        if not representable(v, t): raise Inexact()
+        return Fraction(v)
+    if isf(t0):
+        if t == "bool": raise Inexact()              # floating -> _Bool: known finding C07:bool-conversion
+        i = int(v)                                    # truncation toward zero
+        if not (tmin(t) <= i <= tmax(t)): raise UB()
+        return i
+    if t == "bool" and v not in (0, 1): raise Inexact()
+    return conv(t, int(v))
+
+
+def feval(e):
+    k = e[0]
+    if k == "lit":
+        return e[1], (Fraction(e[2]) if isf(e[1]) else e[2])
+    if k == "cast":
+        t0, v = feval(e[2])
+        return e[1], fconv(e[1], t0, v)
+    if k == "un":
+        t, v = feval(e[2])
+        if e[1] == "lnot": return "int", int(v == 0)
+        if isf(t):
+            if e[1] == "bnot": raise Inexact()
+            return t, (-v if e[1] == "neg" else v)
+        return ceval(("un", e[1], ("lit", t, v)))
+    if k == "bin":
+        t1, v1 = feval(e[2]); t2, v2 = feval(e[3])
+        op = e[1]
+        if isf(t1) or isf(t2):
+            if op not in ("add", "sub", "mul", "div"): raise Inexact()
+            t = fusual(t1, t2)
+            a, b = fconv(t, t1, v1), fconv(t, t2, v2)
+            if op == "div":
+                if b == 0 or abs(b).numerator != 1 and abs(b).denominator != 1: raise Inexact()
+                r = a / b
+            else:
+                r = a + b if op == "add" else a - b if op == "sub" else a * b
+            if not representable(r, t): raise Inexact()
+            return t, r
+        return ceval(("bin", op, ("lit", t1, v1), ("lit", t2, v2)))
+    if k == "cmp":
+        t1, v1 = feval(e[2]); t2, v2 = feval(e[3])
+        t = fusual(t1, t2)
+        return "int", ccmp(e[1], fconv(t, t1, v1), fconv(t, t2, v2))
+    if k in ("land", "lor"):
+        _, v1 = feval(e[1]); _, v2 = feval(e[2])
+        return "int", int((v1 != 0 and v2 != 0) if k == "land" else (v1 != 0 or v2 != 0))
+    if k == "cond":
+        _, vc = feval(e[1]); t1, v1 = feval(e[2]); t2, v2 = feval(e[3])
+        t = fusual(t1, t2)
+        return t, (fconv(t, t1, v1) if vc != 0 else fconv(t, t2, v2))
+    if k == "comma":
+        feval(e[1])
+        return feval(e[2])
+    raise AssertionError(k)
+
+
+def flit(t, v):
+    if not isf(t): return clit(t, v)
+    v = Fraction(v)
+    m = v.denominator.bit_length() - 1
+    digits = abs(v.numerator) * 5 ** m
+    txt = str(digits).rjust(m + 1, "0")
+    txt = (txt[:-m] + "." + txt[-m:]) if m else txt + ".0"
+    txt += {"float": "f", "double": "", "ldouble": "L"}[t]
+    return "(-%s)" % txt if v < 0 else txt
+
+
+def to_cx(e, leaf):
+    """C text of an integer/floating tree"""
+    k = e[0]
+    if k == "lit": return leaf(e)
+    if k == "cast": return "((%s)%s)" % (xspell(e[1]), to_cx(e[2], leaf))
+    if k == "un": return "(%s%s)" % ({"neg": "-", "bnot": "~", "plus": "+", "lnot": "!"}[e[1]], to_cx(e[2], leaf))
+    if k == "bin": return "(%s %s %s)" % (to_cx(e[2], leaf), BINOPS[e[1]], to_cx(e[3], leaf))
+    if k == "cmp": return "(%s %s %s)" % (to_cx(e[2], leaf), CMPOPS[e[1]], to_cx(e[3], leaf))
+    if k == "land": return "(%s && %s)" % (to_cx(e[1], leaf), to_cx(e[2], leaf))
+    if k == "lor": return "(%s || %s)" % (to_cx(e[1], leaf), to_cx(e[2], leaf))
+    if k == "cond": return "(%s ? %s : %s)" % (to_cx(e[1], leaf), to_cx(e[2], leaf), to_cx(e[3], leaf))
+    if k == "comma": return "(%s , %s)" % (to_cx(e[1], leaf), to_cx(e[2], leaf))
+
+
 PRELUDE = r"""#include <stdio.h>
 #include <string.h>
 #include <stdlib.h>
@@ -222,6 +355,7 @@ static ull chk = 1469598103934665603ULL;
 static void mix (ull v) { chk = (chk ^ v) * 1099511628211ULL; }
 #define PS(tag, x) do { ll v_ = (ll) (x); mix ((ull) v_); printf ("%s %lld\n", tag, v_); } while (0)
 #define PU(tag, x) do { ull v_ = (ull) (x); mix (v_); printf ("%s %llu\n", tag, v_); } while (0)
+#define PF(tag, x) do { long double v_ = (long double) (x); mix ((ull) (ll) (v_ * 64.0L)); printf ("%s %La\n", tag, v_); } while (0)
 #define TYPEID(x) _Generic ((x), _Bool: 0, char: 1, signed char: 2, unsigned char: 3, short: 4, \
   unsigned short: 5, int: 6, unsigned int: 7, long: 8, unsigned long: 9, long long: 10, \
   unsigned long long: 11, default: 99)
@@ -308,8 +442,7 @@ class Gen:
                     expect[tag + ".q"] = 7 if v else 9
                     expect[tag + ".w"] = 3 if v else 0
                 lean.append((tag + ".c", to_lean(e), t, v))
-                pair = {promote(t1), promote(t2)}
-                if e[0] in ("bin", "cond") and not (("ulong" in pair and "llong" in pair)):
+                if e[0] in ("bin", "cond"):
                     body.append('  PS ("%s.t", TYPEID (%s) * 100 + (int) sizeof (%s));' % (tag, rt, ct))
                     expect[tag + ".t"] = TNAMES.index(t) * 100 + width(t) // 8
         text = "static void %s (void) {\n%s\n}\n" % (name, "\n".join(body))
@@ -410,9 +543,7 @@ class Gen:
         S = width(bt)
         nf = 2 + r.below(6)
         fields, off = [], 0
-        # declared types wider than int: keep all fields on one side of the int width (a mix is the known
-        # finding C07:bitfield-alias, pinned by corpus/C07/kf-bitfield-alias.c)
-        lo, hi = (1, S) if S <= 32 else ((1, 31) if r.chance(1, 2) else (32, S))
+        lo, hi = 1, S
         for i in range(nf):
             c = r.below(8)
             w = lo if c == 0 else hi if c == 1 else max(lo, hi - 1) if c == 2 else lo + r.below(hi - lo + 1)
@@ -505,8 +636,8 @@ class Gen:
         return decls, "%s %s" % (kw, name), ("u" if union else "s", [(x[0], x[1]) for x in mems])
 
     def agg_init(self, tr, override):
-        """initialiser for the aggregate `tr`; with override=False no subobject is initialised twice
-        (c2mir keeps the FIRST initialiser in static initialisers: known finding C07:static-init-override)"""
+        """initialiser for the aggregate `tr`; with override=True scalar subobjects may be initialised twice
+        (the later initialiser wins, C11 6.7.9p19)"""
         r = self.r
         if tr[0] == "i":
             return clit(tr[1], self.val(tr[1]))
@@ -565,7 +696,7 @@ class Gen:
         decls, sp, tr = self.agg_type(2, name + "_t")
         body, glob = [], list(decls)
         for k in range(2):
-            glob.append("static %s %s_g%d = %s;" % (sp, name, k, self.agg_init(tr, False)))
+            glob.append("static %s %s_g%d = %s;" % (sp, name, k, self.agg_init(tr, True)))
             self.agg_print(tr, "%s_g%d" % (name, k), "%s.g%d" % (name, k), body)
         body.insert(0, "  %s l0 = %s;\n  %s l1 = %s;\n  %s arr[2] = { [1] = %s };" % (
             sp, self.agg_init(tr, True), sp, self.agg_init(tr, True), sp, self.agg_init(tr, False)))
@@ -603,11 +734,7 @@ class Gen:
             b = self.sexpr(t, vars_, depth - 1)
             return "%s (%s, %s, %s, %s)" % (r.choice(["SADD", "SSUB", "SMUL"]), T, UT, a, b)
         if c < 5:
-            if vars_:
-                n, vt = r.choice(vars_)
-                b = "((%s) %s)" % (T, n)
-            else:
-                b = clit(t, 1 + r.below(min(100, tmax(t))))
+            b = self.sexpr(t, vars_, depth - 1)
             if signed(t):
                 return "%s (%s, %s, %s, %s)" % (r.choice(["SDIVS", "SMODS"]), T, clit(t, tmin(t)), a, b)
             return "%s (%s, %s, %s)" % (r.choice(["SDIVU", "SMODU"]), T, a, b)
@@ -806,6 +933,244 @@ class Gen:
         return {"name": name, "kind": "calls", "text": text, "expect": {}, "lean": [], "info": ""}
 
 
+    # ------------------------------------------------------------------ constant folding over integer and floating types
+    def fval(self, t):
+        r = self.r
+        if isf(t):
+            c = r.below(6)
+            if c == 0: return Fraction(0)
+            if c == 1: return Fraction(r.below(17) - 8)
+            return Fraction(r.below(257) - 128, 8)
+        c = r.below(8)
+        if c < 5:
+            v = r.below(41) - 20
+            return conv(t, v) if (signed(t) or v >= 0) and t != "bool" else (v & 1 if t == "bool" else abs(v))
+        return self.val(t)
+
+    def fexpr(self, depth, ice=False):
+        """random tree; ice=True: strictly conforming integer constant expression (floating constants only as
+        immediate operands of casts to integer types, no comma)"""
+        r = self.r
+        if depth == 0 or r.chance(1, 7):
+            if ice:
+                if r.chance(1, 3):
+                    ft = r.choice(FNAMES)
+                    return ("cast", r.choice(["int", "long", "short", "uint", "llong"]), ("lit", ft, abs(self.fval(ft))))
+                t = r.choice(TNAMES)
+                return ("lit", t, self.fval(t))
+            t = r.choice(TNAMES + FNAMES * 3)
+            return ("lit", t, self.fval(t))
+        c = r.below(24)
+        sub = lambda: self.fexpr(depth - 1, ice)
+        if c < 7: return ("cond", sub(), sub(), sub())
+        if c < 10: return ("land", sub(), sub())
+        if c < 13: return ("lor", sub(), sub())
+        if c < 16: return ("cast", r.choice(TNAMES if ice else TNAMES + FNAMES * 2), sub())
+        if c < 18: return ("cmp", r.choice(list(CMPOPS)), sub(), sub())
+        if c < 20: return ("un", r.choice(["neg", "plus", "lnot"] + (["bnot"] if ice else [])), sub())
+        ops = list(BINOPS) if ice else ["add", "sub", "mul", "add", "sub", "mul", "div", "and", "or", "xor", "lsh", "rsh", "mod"]
+        return ("bin", r.choice(ops), sub(), sub())
+
+    @staticmethod
+    def fok(e):
+        try:
+            feval(e)
+            return True
+        except (UB, Inexact):
+            return False
+
+    def frepair(self, e):
+        """make the tree defined and exact: children first, then the node is replaced by the first working
+        variant (operands cast to double / long long / int, a small right operand, a comparison, a child)"""
+        if e[0] == "lit":
+            return e
+        e = (e[0],) + tuple(self.frepair(x) if isinstance(x, tuple) else x for x in e[1:])
+        if self.fok(e):
+            return e
+        r = self.r
+        k = e[0]
+        kids = [x for x in e[1:] if isinstance(x, tuple)]
+        cands = []
+        if k == "cast":
+            ts = ["double", "ldouble", "llong", "long", "int", "float", "ullong", "uint"]
+            st = r.below(len(ts))
+            cands += [("cast", t, kids[0]) for t in ts[st:] + ts[:st]]
+        elif k == "un":
+            cands += [("un", e[1], ("cast", t, kids[0])) for t in ("double", "llong", "ullong", "int")] + [("un", "lnot", kids[0])]
+        elif k == "bin":
+            a, b = kids
+            small = ("lit", r.choice(["int", "double", "float", "long"]), 1 + r.below(7))
+            casts = ["double", "ldouble", "llong", "int", "ullong", "uint"]
+            st = r.below(3)
+            for t in casts[st:] + casts[:st]:
+                cands.append(("bin", e[1], ("cast", t, a), ("cast", t, b)))
+                cands.append(("bin", e[1], ("cast", t, a), b))
+            cands.append(("bin", e[1], a, small))
+            cands.append(("bin", e[1], a, ("lit", "double", Fraction(r.choice([2, 4, 8, 1]), r.choice([1, 2, 4])))))
+            cands.append(("bin", e[1], ("cast", "int", a), ("lit", "int", 1 + r.below(7))))
+            cands += [("bin", r.choice(["add", "sub"]), ("cast", "double", a), ("cast", "double", b)), ("cmp", r.choice(list(CMPOPS)), a, b)]
+        elif k in ("cmp", "cond"):
+            head = kids[:-2]
+            a, b = kids[-2:]
+            for t in ("double", "llong", "ldouble", "int"):
+                cands.append((k,) + ((e[1],) if k == "cmp" else ()) + tuple(head) + (("cast", t, a), ("cast", t, b)))
+            cands.append((k,) + ((e[1],) if k == "cmp" else ()) + tuple(head) + (a, ("lit", "int", r.below(9))))
+            cands.append((k,) + ((e[1],) if k == "cmp" else ()) + tuple(head) + (("lit", "double", Fraction(r.below(33) - 16, 4)), b))
+        cands += [("land", kids[0], kids[-1]), kids[-1]]
+        for c in cands:
+            if self.fok(c):
+                return c
+        return kids[-1]
+
+    def unit_fcexpr(self, n=7):
+        r = self.r
+        name = self.uname()
+        glob, body, expect = [], [], {}
+
+        def P(t): return "PF" if isf(t) else "PS" if signed(t) else "PU"
+        for i in range(n):
+            e = self.frepair(self.fexpr(2 + r.below(3)))
+            t, v = feval(e)
+            tag = "%s.%d" % (name, i)
+            ct = to_cx(e, lambda l: flit(l[1], l[2]))
+            ls = leaves(e, [])
+            vn = {}
+            for j, l in enumerate(ls):
+                vn[id(l)] = "%s_v%d_%d" % (name, i, j)
+                glob.append("static volatile %s %s = %s;" % (xspell(l[1]), vn[id(l)], flit(l[1], l[2])))
+            rt = to_cx(e, lambda l: vn[id(l)])
+            half = {id(l) for l in ls if r.chance(1, 2)}
+            mt = to_cx(e, lambda l: vn[id(l)] if id(l) in half else flit(l[1], l[2]))
+            glob.append("static const %s %s_g%d = %s;" % (xspell(t), name, i, ct))
+            body.append('  %s ("%s.c", %s); %s ("%s.g", %s_g%d);' % (P(t), tag, ct, P(t), tag, name, i))
+            body.append('  %s ("%s.r", %s); %s ("%s.m", %s);' % (P(t), tag, rt, P(t), tag, mt))
+            body.append('  { %s a_ = %s; %s l_[2] = { %s, %s }; %s ("%s.l", a_); %s ("%s.l0", l_[0]); %s ("%s.l1", l_[1]); }'
+                        % (xspell(t), ct, xspell(t), mt, ct, P(t), tag, P(t), tag, P(t), tag))
+            for sfx in (".c", ".g", ".r", ".m", ".l", ".l0", ".l1"):
+                expect[tag + sfx] = v
+            # converting initialisers: to double, float, long long
+            for sfx, dt in ((".d", "double"), (".f", "float"), (".q", "llong"), (".u", "uchar")):
+                try:
+                    dv = fconv(dt, t, v)
+                except (UB, Inexact):
+                    continue
+                if dt == "uchar" and isf(t) and v < 0:
+                    continue
+                glob.append("static %s %s_%s%d = %s;" % (xspell(dt), name, sfx[1], i, ct))
+                body.append('  %s ("%s%s", %s_%s%d); { %s x_ = %s; %s ("%s%sl", x_); }' % (
+                    P(dt), tag, sfx, name, sfx[1], i, xspell(dt), mt, P(dt), tag, sfx))
+                expect[tag + sfx] = dv
+                expect[tag + sfx + "l"] = dv
+            # the comma operator and a second tree: value of the right operand
+            e2 = self.frepair(self.fexpr(2))
+            t2, v2 = feval(e2)
+            body.append('  %s ("%s.k", (%s , %s)); %s ("%s.k2", (%s , %s));' % (
+                P(t2), tag, mt, to_cx(e2, lambda l: flit(l[1], l[2])), P(t), tag, to_cx(e2, lambda l: flit(l[1], l[2])), ct))
+            expect[tag + ".k"] = v2
+            expect[tag + ".k2"] = v
+            if not isf(t):
+                body.append('  PS ("%s.t", TYPEID (%s) * 100 + (int) sizeof (%s));' % (tag, ct, mt))
+                expect[tag + ".t"] = TNAMES.index(t) * 100 + width(t) // 8
+            else:
+                body.append('  PS ("%s.t", (int) sizeof (%s) * 100 + (int) sizeof (%s));' % (tag, ct, rt))
+                sz = {"float": 4, "double": 8, "ldouble": 16}[t]
+                expect[tag + ".t"] = sz * 101
+            # strictly conforming integer constant expressions in the places that require them
+            ie = self.frepair(self.fexpr(2 + r.below(2), ice=True))
+            it, iv = feval(ie)
+            if isf(it):
+                continue
+            ic = to_cx(ie, lambda l: flit(l[1], l[2]))
+            ils = leaves(ie, [])
+            ivn = {}
+            for j, l in enumerate(ils):
+                ivn[id(l)] = "%s_w%d_%d" % (name, i, j)
+                glob.append("static volatile %s %s = %s;" % (xspell(l[1]), ivn[id(l)], flit(l[1], l[2])))
+            irt = to_cx(ie, lambda l: ivn[id(l)])
+            PI = "PS" if signed(it) else "PU"
+            body.append('  %s ("%s.ic", %s); %s ("%s.ir", %s);' % (PI, tag, ic, PI, tag, irt))
+            expect[tag + ".ic"] = iv
+            expect[tag + ".ir"] = iv
+            body.append('  PS ("%s.ia", (int) sizeof (char[(%s & 7) + 1]));' % (tag, ic))
+            expect[tag + ".ia"] = (iv & 7) + 1
+            glob.append("static char %s_arr%d[(%s & 15) + 1]; struct %s_bf%d { unsigned f : (%s & 7) + 1; };" % (name, i, ic, name, i, ic))
+            body.append('  PS ("%s.ig", (int) sizeof (%s_arr%d)); { struct %s_bf%d b_; b_.f = 255; PS ("%s.iw", b_.f); }' % (
+                tag, name, i, name, i, tag))
+            expect[tag + ".ig"] = (iv & 15) + 1
+            expect[tag + ".iw"] = (1 << ((iv & 7) + 1)) - 1 & 255
+            body.append('  switch (%s & 3) { case (%s & 3): PS ("%s.is", 1); break; default: PS ("%s.is", 0); }' % (irt, ic, tag, tag))
+            expect[tag + ".is"] = 1
+            if -2 ** 31 <= iv < 2 ** 31:
+                glob.append("enum { %s_e%d = %s };" % (name, i, ic))
+                body.append('  PS ("%s.ie", %s_e%d);' % (tag, name, i))
+                expect[tag + ".ie"] = iv
+        text = "\n".join(glob) + "\nstatic void %s (void) {\n%s\n}\n" % (name, "\n".join(body))
+        return {"name": name, "kind": "fcexpr", "text": text, "expect": expect, "lean": [], "info": ""}
+
+    # ------------------------------------------------------------------ struct assignment between addressing shapes
+    SADDR_SIZES = [1, 2, 3, 4, 5, 6, 7, 8, 9, 12, 15, 16, 17, 24, 31, 32, 33, 48, 63, 64, 65, 100, 127, 128, 129, 255, 256, 257, 300, 1000]
+
+    def unit_saddr(self, size_index):
+        r = self.r
+        name = self.uname()
+        n = self.SADDR_SIZES[size_index % len(self.SADDR_SIZES)]
+        S = "struct %s_s" % name
+        c = r.below(4)
+        mem = ("unsigned short h[%d];" % (n // 2) if c == 1 and n % 2 == 0 else "unsigned int w[%d];" % (n // 4) if c == 2 and n % 4 == 0
+               else "unsigned long d[%d];" % (n // 8) if c == 3 and n % 8 == 0 else "unsigned char b[%d];" % n)
+        W = "struct %s_w" % name
+        itypes = ["int", "long", "unsigned", "unsigned char", "short", "unsigned long", "signed char", "long long"]
+        ti, tj = r.choice(itypes), r.choice(itypes)
+        glob = ["%s { %s };" % (S, mem),
+                "%s { int pad; %s m; char c; %s a[3]; };" % (W, S, S),
+                "static %s %s_A[6], %s_B[6], %s_g; static %s %s_w, %s_wa[3];" % (S, name, name, name, W, name, name),
+                "static void %s_fill (int seed) { unsigned char *p; unsigned k; unsigned x = (unsigned) seed * 2654435761u + 12345u;" % name,
+                "#define FILL_(o) for (p = (unsigned char *) &(o), k = 0; k < sizeof (o); k++) { x = x * 1103515245u + 12345u; p[k] = (unsigned char) (x >> 16); }",
+                "  FILL_ (%s_A) FILL_ (%s_B) FILL_ (%s_g) FILL_ (%s_w) FILL_ (%s_wa)" % (name, name, name, name, name),
+                "#undef FILL_",
+                "}",
+                "static void %s_hash (const char *tag) { ull h = 1469598103934665603ULL; const unsigned char *p; unsigned k;" % name,
+                "#define HASH_(o) for (p = (const unsigned char *) &(o), k = 0; k < sizeof (o); k++) h = (h ^ p[k]) * 1099511628211ULL;",
+                "  HASH_ (%s_A) HASH_ (%s_B) HASH_ (%s_g) HASH_ (%s_w.m) HASH_ (%s_w.a) HASH_ (%s_wa[0].m) HASH_ (%s_wa[1].m) HASH_ (%s_wa[2].m)"
+                % (name, name, name, name, name, name, name, name),
+                "  HASH_ (%s_wa[0].a) HASH_ (%s_wa[1].a) HASH_ (%s_wa[2].a)" % (name, name, name),
+                "#undef HASH_",
+                '  mix (h); printf ("%s %llu\\n", tag, h); }',
+                "static %s %s_mk (int seed) { %s r_; unsigned char *p = (unsigned char *) &r_; unsigned k;"
+                " for (k = 0; k < sizeof (r_); k++) p[k] = (unsigned char) (seed * 29 + k * 5 + 3); return r_; }" % (S, name, S)]
+        # lvalue shapes over a base pointer; i, j volatile-initialised index variables, C constants
+        def ptr_shapes(B):
+            return ["*%s" % B, "%s[i]" % B, "%s[%d]" % (B, r.below(3)), "*(%s + i)" % B, "%s[i + %d]" % (B, r.below(3)),
+                    "*(%s + %d)" % (B, r.below(3)), "%s[j]" % B, "(&%s[i])[%d]" % (B, r.below(3)), "*(j + %s)" % B]
+        core = ptr_shapes("p") + ptr_shapes("q")
+        other = ["s", "%s_g" % name, "%s_w.m" % name, "pw->m", "(*pw).m", "%s_wa[i].m" % name, "pw->a[i]", "pw[j].a[%d]" % r.below(3),
+                 "%s_w.a[%d]" % (name, r.below(3)), "pw[i].m", "(pw + j)->a[i]", "ps->m", "*pq[i]"]
+        src_only = ["%s_mk (%d)" % (name, r.below(50)), "(i ? p[i] : *q)", "(j ? *p : q[i])", "(0, q[i])", "(*p = q[j])", "(pw->m = p[i])",
+                    "*(i ? p : q + j)"]
+        pairs = [(d, s_) for d in core for s_ in core]
+        for _ in range(70):
+            pairs.append((r.choice(core + other), r.choice(core + other + src_only)))
+            pairs.append((r.choice(other), r.choice(other + core)))
+        f = ["static void %s_f (%s *p, %s *q, %s *pw, int cfg) {" % (name, S, S, W),
+             "  volatile %s vi = %d; volatile %s vj = %d; %s i = vi; %s j = vj; %s s = %s_mk (7); %s *ps = pw + 1; %s *pq[3];"
+             % (ti, r.below(3), tj, r.below(3), ti, tj, S, name, W, S),
+             "  char tag[40]; pq[0] = q; pq[1] = p + 2; pq[2] = &pw->m;"]
+        body_stm = []
+        for k, (d, s_) in enumerate(pairs):
+            body_stm.append('  %s_fill (%d); %s = %s; sprintf (tag, "%s.%%d.%d", cfg); %s_hash (tag);' % (name, k, d, s_, name, k, name))
+        f += body_stm
+        f.append("  { %s t_ = s; %s_g = t_; %s_hash (\"%s.s\"); }" % (S, name, name, name))
+        f.append("}")
+        glob += f
+        body = ["  %s_f (%s_A, %s_A + 1, %s_wa, 0);" % (name, name, name, name),
+                "  %s_f (%s_A, %s_B, %s_wa, 1);" % (name, name, name, name),
+                "  %s_f (%s_B + 1, %s_B + 1, %s_wa, 2);" % (name, name, name, name),
+                '  PS ("%s.size", (int) sizeof (%s));' % (name, S)]
+        text = "\n".join(glob) + "\nstatic void %s (void) {\n%s\n}\n" % (name, "\n".join(body))
+        return {"name": name, "kind": "saddr", "text": text, "expect": {name + ".size": n}, "lean": [], "info": str(n)}
+
+
+
 def assemble(units):
     src = [PRELUDE]
     for u in units:
@@ -820,8 +1185,8 @@ def assemble(units):
 def gen_program(rng, index, pair_cursor):
     """one program: a mix of units; `pair_cursor` walks through the 144 type pairs"""
     g = Gen(rng)
-    kinds = [["conv", "conv", "cexpr", "ctrl"], ["bitf", "bitf", "init", "cexpr"], ["scopy", "calls", "ctrl", "conv"],
-             ["conv", "bitf", "calls", "init"]][index % 4]
+    kinds = [["conv", "conv", "cexpr", "ctrl", "fcexpr"], ["bitf", "bitf", "init", "cexpr", "saddr"],
+             ["scopy", "calls", "ctrl", "conv", "fcexpr"], ["conv", "bitf", "calls", "init", "saddr"]][index % 4]
     units = []
     for k in kinds:
         if k == "conv":
@@ -834,4 +1199,6 @@ def gen_program(rng, index, pair_cursor):
             base = (index // 4 * 8) % 64
             units.append(g.unit_scopy([base + i + 1 for i in range(8)]))
         elif k == "calls": units.append(g.unit_calls())
+        elif k == "fcexpr": units.append(g.unit_fcexpr())
+        elif k == "saddr": units.append(g.unit_saddr(index // 2 + rng.below(3)))
     return units
